@@ -614,7 +614,8 @@ Proof.
                                          | Some sv' => num_fx v =? sv'
                                          | None => true end
                  end = true).
-  { match type of E with (if negb ?b then _ else _) = _ => destruct b end;
+  { change (host_value_ok (lookup f_value c) (assoc (z_addr p) sens) = true).
+    match type of E with (if negb ?b then _ else _) = _ => destruct b end;
       [reflexivity|discriminate E]. }
   clear E.
   rewrite forallb_forall in F1, F2.
